@@ -195,8 +195,6 @@ def check_run(ctx, driver, atts, mode, pdesc, text_seed):
     for v in m['verdicts']:
         ctx.count('verdict_' + v)
     ctx.count('unserved_requests', len(order) - nserved + (len(atts) - len(order)))
-    if not m['full']:
-        raise common.Infra('generated request set cannot fill the table: ' + json.dumps(atts))
     # 1. per request: verdict kind, exact seated reply, connection closed after an error
     for pos, i in enumerate(order):
         o = outs[i]
@@ -220,6 +218,10 @@ def check_run(ctx, driver, atts, mode, pdesc, text_seed):
         else:
             if not o.get('closed_by_server'):
                 fail('rejected-connection-not-closed', {'request': atts[i], 'out': o})
+    if not m['full']:
+        if fails:
+            return fails             # the implementation seated / rejected differently: already reported with the request
+        raise common.Infra('generated request set cannot fill the table: ' + json.dumps(atts))
     # 2. the four seated clients: Teams message, first board, end of session
     seated = [(order[pos], served[pos]) for pos in range(nserved) if m['verdicts'][pos] == 'seated']
     seats = sorted(a['seat'] for _, a in seated)
